@@ -4,9 +4,12 @@
 usage: panic_sites.py <repo> [--table tools/panic_table.json] [--dump]
 
 Lists every `unwrap()`, `expect(`, `panic!`, `unreachable!`, `unimplemented!`, `todo!`,
-`assert!`/`assert_eq!`/`assert_ne!` (not `debug_assert`), slice/array index `x[..]` and integer
-subtraction (`-`, `-=`) outside `#[cfg(test)]` items and comments in the receive-path files, keyed
-by (file, normalised source line).  Each key must appear in the committed table, which says
+`assert!`/`assert_eq!`/`assert_ne!` (not `debug_assert`), slice/array index `x[..]` (ranges included),
+integer arithmetic that panics on overflow when overflow checks are on (`-`, `-=`, `+`, `+=`, `*`, `*=`,
+`<<`, `<<=`, `>>`, `>>=`, `.pow(`) or on a zero divisor (`/`, `%` by anything but a literal), and the `bytes::Buf` / `BufMut` / `Bytes` calls that panic
+when asked for more than is there (`get_u8` … `get_uint`, `advance`, `copy_to_bytes`, `copy_to_slice`,
+`split_to`, `split_off`, `slice`, `put`, `put_slice`, `put_u8` …) outside `#[cfg(test)]` items and
+comments in the receive-path files, keyed by (file, normalised source line).  (`as` casts never panic.)  Each key must appear in the committed table, which says
 why the site cannot fire on peer input (the model guard / lemma / correspondence engine that
 covers it) or that it is not on a receive path.  An unlisted site is a broken obligation: the
 code changed in a way the argument does not cover.  Keys are line-number independent so that
@@ -34,7 +37,11 @@ PAT = re.compile(
     r"\.unwrap\(\)|\.expect\(|\bpanic!|\bunreachable!|\bunimplemented!|\btodo!|"
     r"(?<!debug_)\bassert(_eq|_ne)?!|"
     r"[A-Za-z0-9_\)\]]\[[^\]]*\]|"          # indexing
-    r"[A-Za-z0-9_\)\]]\s-\s[A-Za-z0-9_\(]|-="  # subtraction
+    r"[A-Za-z0-9_\)\]]\s-\s[A-Za-z0-9_\(]|-=|"  # subtraction
+    r"[A-Za-z0-9_\)\]]\s(?:\+|\*|<<|>>)\s[A-Za-z0-9_\(!]|^(?:\+|\*|<<|>>)\s[A-Za-z0-9_\(!]|\+=|\*=|<<=|>>=|\.pow\(|"   # overflow
+    r"[A-Za-z0-9_\)\]]\s(?:/|%)\s(?![0-9][0-9a-fA-Fx_]*\b)[A-Za-z0-9_\(!]|(?:/|%)=\s(?![0-9][0-9a-fA-Fx_]*\b)|"   # divisor not a literal
+    r"\.(?:get_[ui](?:8|16|32|64|128|nt)(?:_le|_ne)?|advance|copy_to_bytes|copy_to_slice|split_to|split_off|slice|"
+    r"put|put_slice|put_bytes|put_[ui](?:8|16|32|64|128|nt)(?:_le|_ne)?)\("   # Buf / BufMut / Bytes
 )
 
 
@@ -81,9 +88,14 @@ def strip_cfg_test(src):
         # find the end of the item: first `{` ... matching `}` or a `;` before any `{`
         k = j
         depth = 0
+        paren = 0
         started = False
         while k < len(src):
             c = src[k]
+            if c in "([":
+                paren += 1
+            elif c in ")]":
+                paren -= 1
             if c == "{":
                 depth += 1
                 started = True
@@ -95,7 +107,7 @@ def strip_cfg_test(src):
             elif c == ";" and not started:
                 k += 1
                 break
-            elif c == "," and not started and depth == 0:
+            elif c == "," and not started and depth == 0 and paren <= 0:
                 # a cfg(test) struct field / match arm pattern
                 k += 1
                 break
@@ -128,6 +140,8 @@ def sites(repo):
             probe = re.sub(r":\s*\[[^\]]*\]", ":", probe)          # x: [T]
             probe = re.sub(r"<\s*\[[^\]]*\]\s*>", "<>", probe)
             probe = re.sub(r"->", "", probe)
+            # `+` between trait bounds / lifetimes is not arithmetic
+            probe = re.sub(r"\+\s*(?:Send|Sync|Unpin|Sized|Clone|Copy|Debug|Display|'[a-z_]+)\b", "", probe)
             if PAT.search(probe):
                 res.append((rel, ln, norm(l)))
     return res
